@@ -336,6 +336,8 @@ def outer_sides_are_read(ctx, prog):
         def const_of(op):
             """'T' for the generic parameter, a variant name for a JoinType constant"""
             if op['k'] == 'const':
+                if str(op.get('v')) == 'T':
+                    return 'T'
                 m = re.match(r'promoted\[(\d+)\]', str(op.get('v', '')))
                 if m and int(m.group(1)) < len(prom):
                     for st in prom[int(m.group(1))]:
@@ -368,6 +370,38 @@ def outer_sides_are_read(ctx, prog):
                     nxt = b.blocks[c.bb]['term'].get('t')
                     if nxt is not None and b.blocks[nxt]['term']['k'] == 'switch' and not b.blocks[nxt]['stmts']:
                         decided[nxt] = (variant, (c.res or '').endswith('::eq'))
+        # .. also through a predicate on the join type (`T.keeps_unmatched_left()`, a `matches!` in a private fn): the predicate is evaluated
+        # for the concrete T by abstract interpretation of its body (lib/absint.py); and a `match T { .. }` / `matches!(T, ..)` in the body itself
+        import absint
+        for c in b.calls:
+            if c.target is None or (c.res or c.fn or '') not in prog.bodies or len(c.args) != 1 or const_of(c.args[0]) != 'T':
+                continue
+            cb = prog.bodies[c.res if c.res in prog.bodies else c.fn]
+            if cb.rec.get('locals', ['?'])[0] != 'bool':
+                continue
+            nxt = c.target
+            if b.blocks[nxt]['term']['k'] == 'switch' and not b.blocks[nxt]['stmts']:
+                decided[nxt] = ('call', cb)
+        for i, bl in enumerate(b.blocks):
+            t = bl['term']
+            if t['k'] == 'switch' and not bl['cleanup'] and (t.get('adt') or '').endswith('JoinType') and t.get('on') and i not in decided:
+                if const_of({'k': 'copy', 'pl': {'l': t['on']['l'], 'p': []}}) == 'T':
+                    decided[i] = ('match', None)
+        JT = next((a_.get('ty') for c in b.calls for a_ in c.args if a_['k'] == 'const' and str(a_.get('v')) == 'T' and a_.get('ty')), None) \
+            or next(((t.get('adt')) for bl in b.blocks for t in [bl['term']] if t['k'] == 'switch' and (t.get('adt') or '').endswith('JoinType')), None) \
+            or 'executor::hash_join::JoinType'
+        interp = absint.Interp(prog, JT, absint.variant_order(prog, JT))
+
+        def truth_of(x, T):
+            """True / False / None (both arms) for the decided switch x under the concrete join type T"""
+            kind, info = decided[x]
+            if kind == 'call':
+                try:
+                    outs = set(map(repr, interp.run(info, [absint.T(T)])))
+                except absint.Abort:
+                    return None
+                return True if outs == {'True'} else False if outs == {'False'} else None
+            return (T == kind) == info
         polls = {}
         for c in b.calls:
             if re.search(r'Stream::poll_next$|StreamExt::(next|try_next)$|TryStreamExt::try_next$', c.fn or '') and c.args and c.args[0]['k'] != 'const':
@@ -395,9 +429,11 @@ def outer_sides_are_read(ctx, prog):
                         continue
                     seen.add(x)
                     t = b.blocks[x]['term']
-                    if x in decided and t['k'] == 'switch':
-                        variant, is_eq = decided[x]
-                        truth = (T == variant) == is_eq
+                    if x in decided and t['k'] == 'switch' and decided[x][0] == 'match':
+                        names = t.get('variants', {})
+                        todo.append(next((tgt for v, tgt in t['targets'] if names.get(str(v)) == T), t['otherwise']))
+                    elif x in decided and t['k'] == 'switch' and truth_of(x, T) is not None:
+                        truth = truth_of(x, T)
                         nxt = next((tgt for v, tgt in t['targets'] if (v != '0') == truth), t['otherwise'])
                         todo.append(nxt)
                     else:
